@@ -79,8 +79,7 @@ theorem expr_scan_safe {R : Type} (cfg : ScanCfg R) (c : List Nat) (off endO : N
 
 /-- the hypothesis is needed: the public `ParseExpressions("1<", 2)` looks one unit past the
 buffer (out of contract: no terminator).  Observed on the real code as an ASan report. -/
-example : parseTop ({ readNum := fun _ => none } : ScanCfg Rat) [49, 60] 0 2 =
-    .error (.oobRead 2 2) := by rfl
+example : getOperation [49, 60] 2 10 0 = .error (.oobRead 2 2) := by rfl
 
 /-- Open statement: the tag scanner never fails a checked read (for every content and every
 number reader). -/
